@@ -78,7 +78,10 @@ var patLists = []patList{
 	{"dir-slash", []string{"$R/safe/"}},
 }
 
-var entries = []string{"add", "set_url", "set_url_2step", "refresh", "periodic"}
+// The *_stored entries are refreshes of a list that already has contents on
+// disk (fetched earlier, e.g. from another address before the configuration
+// was edited): the location must be checked again all the same.
+var entries = []string{"add", "set_url", "set_url_2step", "refresh", "periodic", "refresh_stored", "periodic_stored"}
 
 // ---------------------------------------------------------------------------
 // location grammar
@@ -417,6 +420,13 @@ func newEnv(c *lib.Ctx) (e *env, err error) {
 	return e, nil
 }
 
+// storedBase is what a *_stored entry finds on disk: three rules, so that it
+// cannot be mistaken for a canary file (one rule).
+const (
+	storedBase      = "||base.test^\n||base2.test^\n||base3.test^\n"
+	storedBaseRules = 3
+)
+
 func canaryText(n int) string { return fmt.Sprintf("||canary-%d.test^\n", n) }
 
 func (e *env) sub(s string) string { return strings.ReplaceAll(s, rootVar, e.root) }
@@ -488,6 +498,12 @@ func (e *env) exec(cs *caseC) (o *obsT) {
 		_ = os.WriteFile(filepath.Join(fdir, "1.txt"), []byte("||base.test^\n"), 0o644)
 	case "refresh", "periodic":
 		initial = []filtering.FilterYAML{{Enabled: true, URL: loc, Name: "hostile", Filter: filtering.Filter{ID: 1}}}
+	case "refresh_stored", "periodic_stored":
+		initial = []filtering.FilterYAML{{Enabled: true, URL: loc, Name: "hostile", Filter: filtering.Filter{ID: 1}}}
+		_ = os.WriteFile(filepath.Join(fdir, "1.txt"), []byte(storedBase), 0o644)
+		// Old enough for the scheduled refresh to be due (the interval is 1 h).
+		old := vtime.Now().Add(-3 * time.Hour) // the code under test reads the virtual clock
+		_ = os.Chtimes(filepath.Join(fdir, "1.txt"), old, old)
 	}
 	if cs.White {
 		conf.WhitelistFilters = initial
@@ -533,9 +549,9 @@ func (e *env) exec(cs *caseC) (o *obsT) {
 				}
 			}
 			post(d.VerifC17SetURL, setReq{Data: &data{"hostile", loc, true}, URL: cur, Whitelist: cs.White}, o)
-		case "refresh":
+		case "refresh", "refresh_stored":
 			post(d.VerifC17Refresh, map[string]any{"whitelist": cs.White}, o)
-		case "periodic":
+		case "periodic", "periodic_stored":
 			d.VerifC17Periodic()
 		default:
 			panic("harness: unknown entry " + cs.Entry)
@@ -556,6 +572,9 @@ func (e *env) exec(cs *caseC) (o *obsT) {
 	// Observation 2: the registry.
 	o.Lists = d.VerifC17Lists()
 	for _, l := range o.Lists {
+		if strings.HasSuffix(cs.Entry, "_stored") && l.RulesCount == storedBaseRules {
+			continue // still the contents stored before
+		}
 		if l.URL == loc && l.RulesCount > 0 {
 			o.Unknown = fmt.Sprintf("list %d with the location as URL has rules_count=%d", l.ID, l.RulesCount)
 		}
@@ -824,7 +843,7 @@ func main() {
 				"http_requests_attempted":             m.Counters["http_requests_attempted"],
 				"pattern_lists":                       len(patLists),
 				"entry_points":                        entries,
-				"rule":                                "11 pattern lists (empty, exact, dir/*, dir/?.txt, dir/[ab].txt, */a.txt, two patterns, root/*/a.txt, directory itself, *, dir/) x locations x 5 entry points (add_url, set_url, set_url disabled-then-enabled, forced refresh handler, periodic refresh tick; the last two with the location already in the configuration) x block/allow registry. Locations: 13 targets (10 canary files in safe dir, its sub-directory, unsafe dir, tree root, look-alike 'safe-evil' dir; a missing file; two directories) x dot-dot routes (direct, via safe/, safe/sub/, a FILE safe/a.txt/, unsafe/, safe-evil/, overshoot above /) x departures: segment insertion (/./, //, /x/../), percent-encoding (last separator, dots, first letter), suffix (/, /., //, /x/.., ?x=1), prefix (relative to cwd=safe dir, ./relative, file://, FILE://, file:, file://localhost, ftp://, ftp://host, unix://, http://closed-port, https://, http://, leading space) + 18 stand-alone spellings (empty, NUL bytes, backslashes, ~). non-trivial = case in which a canary file was legitimately read, or a spelling aimed at an existing canary file had to be refused",
+				"rule":                                "11 pattern lists (empty, exact, dir/*, dir/?.txt, dir/[ab].txt, */a.txt, two patterns, root/*/a.txt, directory itself, *, dir/) x locations x 7 entry points (add_url, set_url, set_url disabled-then-enabled, forced refresh handler, periodic refresh tick — the last two with the location already in the configuration, each also with contents of the list already stored from an earlier fetch) x block/allow registry. Locations: 13 targets (10 canary files in safe dir, its sub-directory, unsafe dir, tree root, look-alike 'safe-evil' dir; a missing file; two directories) x dot-dot routes (direct, via safe/, safe/sub/, a FILE safe/a.txt/, unsafe/, safe-evil/, overshoot above /) x departures: segment insertion (/./, //, /x/../), percent-encoding (last separator, dots, first letter), suffix (/, /., //, /x/.., ?x=1), prefix (relative to cwd=safe dir, ./relative, file://, FILE://, file:, file://localhost, ftp://, ftp://host, unix://, http://closed-port, https://, http://, leading space) + 18 stand-alone spellings (empty, NUL bytes, backslashes, ~). non-trivial = case in which a canary file was legitimately read, or a spelling aimed at an existing canary file had to be refused",
 			}
 		},
 		Assumptions: []string{
